@@ -224,3 +224,14 @@ def predicate(op, il, mres, tag):
 def matches_known(k, op, il, mres, tag):
     return False
 import composite, cosign as _thin; _thin.wrap(globals(), "C16")  # COSIGN / CAT ops (checklib/models/cosign.py)
+
+
+# --- TSX cachert ops (token bytes authority -> client -> memcache -> client -> attribute): a second correspondence,
+# checklib/models/tsx.py; theorem Relic.Props.C16.cache_roundtrip_same_token
+import os as _os, sys as _sys
+_sys.path.insert(0, _os.path.join(_os.path.dirname(_os.path.dirname(_os.path.abspath(__file__))), "models"))
+import runner as _runner, tsx as _tsx
+
+
+def run(ctx):
+    return _tsx.combined(ctx, lambda c: _runner.correspondence("C16", c, _sys.modules[__name__]), "C16")
